@@ -85,10 +85,10 @@ def jobs(tier):
             ("Word", "SPEC_FITS_SINT4(v)", "v in int32")]
     for nm, dom, txt in NODE:
         tag = "FOAM_" + nm.split(".")[0]
-        if nm == "SInt":          # foamToBuffer sends SInt nodes through foamSIntReduce: its symex alone is ~5 min
-            if tier == "thorough":
-                J("foam.roundtrip.one_node.SInt", "foam_h.c", "h_rt_node", RT_FNS, ["v"], cls="B", bound="one node, " + txt,
-                  defs=["-DV_TAG=" + tag, "-DV_DOM(v)=" + dom], cbmc=SR_UNW, checks=SR_CHECKS, timeout=2400, assumed=SR_ASS)
+        if nm == "SInt":
+            # not a job: foamToBuffer sends SInt nodes through foamSIntReduce first, and the combined symex aborts at 8 GB after
+            # 29 min (probed).  The SInt node is covered by composition: foamSIntReduce.all_2^64_values (thorough) says a fitting
+            # value is returned as the same node, and the 'w' slot codec is the one exercised by one_node.Word.
             continue
         J("foam.roundtrip.one_node." + nm, "foam_h.c", "h_rt_node", RT_FNS, ["v"], cls="B", bound="one node, " + txt,
           defs=["-DV_TAG=" + tag, "-DV_DOM(v)=" + dom], cbmc=OB, timeout=600, assumed=SR_ASS[:1])
